@@ -39,6 +39,10 @@ pub struct Scenario {
     /// Output directory given as a path relative to the working directory (None = an absolute scratch path).
     #[serde(default)]
     pub out_rel: Option<String>,
+    /// Boolean flags that sit between the file arguments in the layout invocation (position, flag); the canonical
+    /// invocation keeps every option in front. Files are recognised wherever they appear among the arguments.
+    #[serde(default)]
+    pub interleaved: Vec<(usize, String)>,
 }
 
 #[derive(Clone, Debug, Default, Serialize, Deserialize, PartialEq, Eq)]
@@ -213,6 +217,10 @@ pub fn draw(seed: u64, i: u64, tasks: &[Task], thorough: bool) -> Scenario {
     }
     if rng.pct(20) {
         options.push("--no-eq-break".into());
+    }
+    if equivalence == "strong" && rng.pct(15) {
+        options.push("--formula-representation".into());
+        options.push("mu".into());
     }
 
     // role files of the task
@@ -412,7 +420,13 @@ pub fn draw(seed: u64, i: u64, tasks: &[Task], thorough: bool) -> Scenario {
             }
         }
     }
-    Scenario { task_id: task.id.clone(), equivalence, options, files, creation_order, args, marked, out_rel }
+    let mut interleaved = vec![];
+    for flag in ["--bypass-tightness", "--no-simplify", "--no-eq-break"] {
+        if options.iter().any(|o| o == flag) && rng.pct(35) {
+            interleaved.push((rng.below(args.len() as u64 + 1) as usize, flag.to_string()));
+        }
+    }
+    Scenario { task_id: task.id.clone(), equivalence, options, files, creation_order, args, marked, out_rel, interleaved }
 }
 
 fn materialise(s: &Scenario, root: &Path, reverse: bool) {
@@ -467,16 +481,25 @@ pub fn check_once(bins: &Binaries, s: &Scenario, env: &Env, reverse_creation: bo
     let mut runs = 0;
     let root = scratch.lock().unwrap().fresh_dir("lay");
     materialise(s, &root, reverse_creation);
+    // the layout invocation: moved flags sit between the files
+    let moved: Vec<&String> = s.interleaved.iter().map(|(_, f)| f).collect();
+    let layout_options: Vec<String> = s.options.iter().filter(|o| !moved.contains(o)).cloned().collect();
+    let mut layout_args = s.args.clone();
+    let mut ins = s.interleaved.clone();
+    ins.sort_by(|a, b| b.0.cmp(&a.0));
+    for (pos, flag) in ins {
+        layout_args.insert(pos.min(layout_args.len()), flag);
+    }
     let (out, got) = match &s.out_rel {
         Some(rel) => {
             let out = root.join(norm(rel));
             fs::create_dir_all(&out).expect("create relative output dir");
-            let got = verify_out(bins, &s.options, &s.args, &root, &out, Some(rel), env);
+            let got = verify_out(bins, &layout_options, &layout_args, &root, &out, Some(rel), env);
             (out, got)
         }
         None => {
             let out = scratch.lock().unwrap().fresh_dir("out");
-            let got = verify(bins, &s.options, &s.args, &root, &out, env);
+            let got = verify(bins, &layout_options, &layout_args, &root, &out, env);
             (out, got)
         }
     };
